@@ -7,7 +7,7 @@
     the runner level ([Divan::config_with_args], builder methods,
     [IntoThreads]).  Executable definitions only; proofs are in Proofs/Options.v. *)
 
-From DivanV Require Import Base.Res.
+From DivanV Require Import Base.Res Generated.Consts.
 Local Open Scope N_scope.
 
 (** [Option::or] *)
@@ -322,3 +322,72 @@ Definition set_field (fd : field) (v : option value) (o : options) : options :=
      o_max_time := match fd with FMaxTime => as_num v | _ => o_max_time o end;
      o_skip_ext_time := match fd with FSkipExtTime => as_bool v | _ => o_skip_ext_time o end;
      o_ignore := match fd with FIgnore => as_bool v | _ => o_ignore o end |}.
+
+(** [IntoThreads] for a scalar and for [bool] ([src/private.rs]); iterables are
+    [set_threads]. *)
+Definition into_threads_usize (n : N) : list N := [n].
+Definition into_threads_bool (b : bool) : list N := if b then [0] else [1].
+
+(** * What a bench-mode run shows of the effective options (end-to-end stream).
+    Rows: one per thread count [(t, samples, iterations)]; iterations and the
+    number of calls are unknown ([None]) when the sample size is tuned. *)
+Record observed : Type := {
+  ob_ignored : bool;
+  ob_branches : bool;                       (* "t=N" branches are printed *)
+  ob_rows : list (N * N * option N);
+  ob_kinds : list counter_kind;             (* throughput lines printed *)
+  ob_calls : option N;
+  ob_no_samples : bool
+}.
+
+Definition sum_N (l : list N) : N := fold_right N.add 0 l.
+
+Definition observe (parallelism : N) (mode : run_ignored) (eff : options) : observed :=
+  let ts := thread_counts parallelism (o_threads eff) in
+  let c := match o_sample_count eff with Some c => c | None => default_sample_count end in
+  (* "Don't bother running if user specifies 0 max time or 0 samples." *)
+  let none := match o_max_time eff with Some 0 => true | _ => false end
+              || match o_sample_count eff with Some 0 => true | _ => false end
+              || match o_sample_size eff with Some 0 => true | _ => false end in
+  let row t :=
+    let samples := if none then 0 else samples_recorded c t in
+    (t, samples, if none then Some 0 else option_map (fun s => samples * s) (o_sample_size eff)) in
+  {| ob_ignored := should_ignore mode (effective_ignore eff);
+     ob_branches := match ts with _ :: _ :: _ => true | _ => false end;
+     ob_rows := map row ts;
+     ob_kinds := filter (fun k => match cs_get (o_counters eff) k with Some _ => true | None => false end) all_kinds;
+     ob_calls := if none then Some 0
+                 else option_map (fun s => sum_N (map (fun t => samples_recorded c t * s) ts)) (o_sample_size eff);
+     ob_no_samples := none |}.
+
+(** Effective options stated by the specification only (first [Some] in
+    precedence order, per field), for the violation search. *)
+Definition spec_effective (runner : options) (groups : list (option options)) (bench : option options) : options :=
+  {| o_sample_count := first_some (precedence o_sample_count runner groups bench);
+     o_sample_size := first_some (precedence o_sample_size runner groups bench);
+     o_threads := first_some (precedence o_threads runner groups bench);
+     o_counters :=
+       {| cs_bytes := first_some (precedence (fun o => cs_bytes (o_counters o)) runner groups bench);
+          cs_chars := first_some (precedence (fun o => cs_chars (o_counters o)) runner groups bench);
+          cs_cycles := first_some (precedence (fun o => cs_cycles (o_counters o)) runner groups bench);
+          cs_items := first_some (precedence (fun o => cs_items (o_counters o)) runner groups bench) |};
+     o_min_time := first_some (precedence o_min_time runner groups bench);
+     o_max_time := first_some (precedence o_max_time runner groups bench);
+     o_skip_ext_time := first_some (precedence o_skip_ext_time runner groups bench);
+     o_ignore := first_some (precedence o_ignore runner groups bench) |}.
+
+Definition spec_runner (builder_before flags env builder_after : options) : options :=
+  let nb := norm_threads builder_before in let nf := norm_threads flags in
+  let ne := norm_threads env in let na := norm_threads builder_after in
+  {| o_sample_count := first_some [o_sample_count na; o_sample_count nf; o_sample_count ne; o_sample_count nb];
+     o_sample_size := first_some [o_sample_size na; o_sample_size nf; o_sample_size ne; o_sample_size nb];
+     o_threads := first_some [o_threads na; o_threads nf; o_threads ne; o_threads nb];
+     o_counters :=
+       {| cs_bytes := first_some (map (fun o => cs_bytes (o_counters o)) [na; nf; ne; nb]);
+          cs_chars := first_some (map (fun o => cs_chars (o_counters o)) [na; nf; ne; nb]);
+          cs_cycles := first_some (map (fun o => cs_cycles (o_counters o)) [na; nf; ne; nb]);
+          cs_items := first_some (map (fun o => cs_items (o_counters o)) [na; nf; ne; nb]) |};
+     o_min_time := first_some [o_min_time na; o_min_time nf; o_min_time ne; o_min_time nb];
+     o_max_time := first_some [o_max_time na; o_max_time nf; o_max_time ne; o_max_time nb];
+     o_skip_ext_time := first_some [o_skip_ext_time na; o_skip_ext_time nf; o_skip_ext_time ne; o_skip_ext_time nb];
+     o_ignore := first_some [o_ignore na; o_ignore nf; o_ignore ne; o_ignore nb] |}.
